@@ -19,6 +19,7 @@ import BevySyncModel.Slice.Mat
 import BevySyncModel.Slice.Mark
 import BevySyncModel.Slice.Snap
 import BevySyncModel.Slice.Promo
+import BevySyncModel.Slice.Chain
 /-! `bsmodel`: runs the executable model definitions on the cases the Rust harness prints, one line
 in, one line out (`ok <id>` / `MISMATCH <id> <what>`).  Lines starting with `#` are ignored.
 Only model files are imported (no proofs, no Mathlib), so this links as a native executable.
@@ -811,6 +812,39 @@ def checkPromo (toks : List String) : String :=
       go (Promo.init others) 0 (script.splitOn ";")
   | _ => "MISMATCH parse promo"
 
+/-! ### chains of hand-overs (C07): `chain <id> <script>`; tokens: `f:<who>:<deliver>:<accept>:<progress>` a frame of peer
+`who` (0 = the first host, 1 = its client), `r:<who>` the application of `who` requests a promotion,
+`x:<who>:<srv>:<promo>:<cli>:<clients>` what the implementation shows after that frame (`cli`: 0 no client transport,
+1 connecting, 3 connected), `q:<who>:<n>` snapshot requests `who` has sent in the hand-over that just ended -/
+def checkChain (toks : List String) : String :=
+  match toks with
+  | [script] =>
+    let b := fun (t : String) => t == "1"
+    let bs := fun (x : Bool) => if x then "1" else "0"
+    let rec go (s : Chain.State) (k : Nat) : List String → String
+      | [] => "ok"
+      | t :: rest =>
+        match t.splitOn ":" with
+        | ["f", w, d, a, g] => go (Chain.step s (.frame (b w) (b d) (b a) (b g))) (k + 1) rest
+        | ["r", w] =>
+          if Chain.taken s (.request (b w)) then go (Chain.step s (.request (b w))) (k + 1) rest
+          else s!"MISMATCH chain: after {k} script steps peer {w} requests a promotion but the model's session is not at rest under it"
+        | ["x", w, srv, pr, cli, cl] =>
+          let x := Chain.host s (b w)
+          let mc := if x.cli == 4 then 3 else x.cli
+          -- a promoted peer still holding its old client transport: whether the former host's `server.disconnect` has
+          -- reached it yet is the network's business; only the presence of the transport is compared (as in `promo`)
+          let cliOk := if x.cli == 4 && x.srv then cli != "0" else toString mc == cli
+          if bs x.srv == srv && bs x.promo == pr && cliOk && toString x.clients == cl then go s (k + 1) rest
+          else s!"MISMATCH chain: after {k} script steps the model's peer {w} has server {bs x.srv} flag {bs x.promo} client {mc} clients {x.clients}, the implementation server {srv} flag {pr} client {cli} clients {cl}"
+        | ["q", w, n] =>
+          let x := Chain.host s (b w)
+          if toString x.snapReq == n then go s (k + 1) rest
+          else s!"MISMATCH chain: the model's peer {w} requested {x.snapReq} snapshot(s) in this hand-over, the implementation {n}"
+        | _ => "MISMATCH parse chain script"
+    go Chain.rest0 0 (script.splitOn ";")
+  | _ => "MISMATCH parse chain"
+
 def handle (st : DState) (line : String) : DState × Option String :=
   let line := line.trimAscii.toString
   if line.isEmpty || line.startsWith "#" then (st, none)
@@ -844,6 +878,7 @@ def handle (st : DState) (line : String) : DState × Option String :=
         | "mark" => checkMark rest
         | "snapj" => checkSnapJ rest
         | "promo" => checkPromo rest
+        | "chain" => checkChain rest
         | _ => "MISMATCH unknown line kind"
       (st, some s!"{r} {id}")
     | _ => (st, some "MISMATCH parse ?")
